@@ -160,6 +160,7 @@ def execute(cfg, threads_prog, strat_spec, sched_seed, pre_steps, ctx_spec=None,
                     if op.get("rejected"):
                         rec["rejected"] = True
                     sched.in_op[t.tid] = True
+                    sched.ev[t.tid] = []
                     res = M.lib_apply(h.node, op["name"], args)
                     sched.in_op[t.tid] = False
                     rec["ret"] = sched.step
@@ -174,8 +175,10 @@ def execute(cfg, threads_prog, strat_spec, sched_seed, pre_steps, ctx_spec=None,
                         rec["leaked"] = [repr(l) for l in held]
             return program
         seams.S.lib_active = True
+        seams.S.on_hit = sched.note
         sched.run([make_program(i, ops) for i, ops in enumerate(threads_prog)])
         seams.S.lib_active = False
+        seams.S.on_hit = None
         out["abort"] = sched.abort
         out["deadlock"] = sched.deadlock
         out["errors"] = [repr(t.error) for t in sched.threads if t.error is not None]
@@ -183,6 +186,7 @@ def execute(cfg, threads_prog, strat_spec, sched_seed, pre_steps, ctx_spec=None,
         out["switches"] = len(sched.switches)
         out["switch_sites"] = [list(map(str, s[3][:2])) if s[3] else None for s in sched.switches][:50]
         out["switch_funcs"] = [(s[1], s[3][2] if s[3] and len(s[3]) > 2 else None) for s in sched.switches][:50]
+        out["switch_phases"] = [s[4] for s in sched.switches][:50]
         out["points"] = {t.tid: t.points for t in sched.threads}
         out["choices"] = sched.choices
         out["contended"] = sched.contended
